@@ -19,6 +19,7 @@ func init() {
 		Explanation: "Response filtering. Decided: (D1) RR kinds: the answer loop has a case for CNAME, A, AAAA and HTTPS records, each checked against the rules with a value taken from that record's own target/address/hints; both IPv4 and IPv6 hints are handled and the hint checker reports a result only when it is filtered; " +
 			"(D2) whole answer, any position: the loop ranges over the full answer section, and the only ways out of it before the end are an error or a filtered record; (D3) replace and keep: on a filtered record the original upstream response is saved before the delivered response is overwritten with the blocking-mode message; " +
 			"(D4) gating: results that were allow-listed, rewritten or safe-search skip response filtering; otherwise it runs exactly when protection is on, the response came from an upstream and filtering is enabled for the client; the from-upstream flag becomes (constant) true on every successful resolution. " +
+			"(D5) a match that carries hosts-style rules is never turned into a not-filtered result, whatever the record type asked about (the response filter passes the answer record's type: CNAME, A, AAAA, HTTPS): in matchHostProcessDNSResult and the helpers it returns through, the zero Result is returned only on paths where both HostRulesV4 and HostRulesV6 were found empty. " +
 			"Not decided: rule matching on IP literals, 'allow rule for that same name or address overrides' (urlfilter semantics), the content of IPv6-hint stripping.",
 		RuleText:    "Type-switch cases and their operands from SSA type assertions; loop-exit path guards; store ordering; switch-case sets vs declared constants.",
 		Assumptions: []string{"urlfilter rule semantics are external", "dnsproxy sets pctx.Res on successful Resolve"},
@@ -348,6 +349,106 @@ func runC02(c *Ctx) {
 	r.Check(len(starts) > 0 && !f2, "C02-D3", "filtered-record-replaces-response", p.FnPos(fr), "a filtered record always replaces the delivered response", "a filtered record can leave the delivered response untouched")
 
 	c02Gating(c)
+	c02HostRulesAlwaysFilter(c)
+}
+
+// c02HostRulesAlwaysFilter: D5 — the engine result handed to
+// matchHostProcessDNSResult is a match; whatever the record type asked about
+// (the response filter passes the type of the answer record: CNAME, A, AAAA,
+// HTTPS), the function gives a not-filtered (zero) Result only when the match
+// carries no hosts-style rule of either family.
+func c02HostRulesAlwaysFilter(c *Ctx) {
+	p, r := c.P, c.R
+	fn := p.Fn("(*filtering.DNSFilter).matchHostProcessDNSResult")
+	if fn == nil {
+		r.Undecided("C02-D5", "matchHostProcessDNSResult", "-", "anchor not found")
+		return
+	}
+	emptyGuard := func(field string) func(at core.Atom) (bool, bool) {
+		return func(at core.Atom) (bool, bool) {
+			isField := func(v ssa.Value) bool {
+				fr, _, ok := core.LoadedField(core.ResolveCellLoad(v))
+				return ok && fr.Type == "github.com/AdguardTeam/urlfilter.DNSResult" && fr.Field == field
+			}
+			// the slice itself compared with nil
+			if (at.Op == token.EQL || at.Op == token.NEQ) && core.IsNilConst(at.Other) && isField(at.Base) {
+				return true, at.Op == token.EQL
+			}
+			// len(slice) compared with 0
+			if call, ok := at.Base.(*ssa.Call); ok {
+				if b, isB := call.Common().Value.(*ssa.Builtin); isB && b.Name() == "len" && len(call.Common().Args) == 1 && isField(call.Common().Args[0]) {
+					if k, isK := core.ConstInt(at.Other); isK && k == 0 {
+						switch at.Op {
+						case token.EQL, token.LEQ:
+							return true, true
+						case token.NEQ, token.GTR:
+							return true, false
+						}
+					}
+				}
+			}
+			return false, false
+		}
+	}
+	nRet, nZero := 0, 0
+	seen := map[*ssa.Function]bool{}
+	var visit func(f *ssa.Function, depth int)
+	visit = func(f *ssa.Function, depth int) {
+		if seen[f] {
+			return
+		}
+		seen[f] = true
+		for _, b := range f.Blocks {
+			if len(b.Instrs) == 0 || b == f.Recover {
+				continue
+			}
+			ret, ok := core.AsReturn(b.Instrs[len(b.Instrs)-1])
+			if !ok || len(ret.Results) < 1 {
+				continue
+			}
+			nRet++
+			for _, leaf := range core.FlattenPhi(core.ResolveLocalLoad(core.Res(ret, 0))) {
+				// a Result built by makeResult is a verdict
+				if core.IsCallResult(leaf, -1, "filtering.makeResult") {
+					continue
+				}
+				// a Result computed by a helper of the package: the same obligation inside it
+				if call, _, isCall := core.CallResult(leaf); isCall {
+					if h := core.Callee(call.Common()); h != nil && h.Pkg == fn.Pkg && len(h.Blocks) > 0 && depth < 3 {
+						visit(h, depth+1)
+						continue
+					}
+				}
+				// a Result variable that was given a verdict (res = makeResult(...); res.Rules[i].IP = ...)
+				if u, isU := leaf.(*ssa.UnOp); isU {
+					if cell, isC := u.X.(*ssa.Alloc); isC {
+						given := false
+						for _, sv := range core.CellStores(cell) {
+							if core.IsCallResult(sv, -1, "filtering.makeResult") {
+								given = true
+							}
+						}
+						if given {
+							continue
+						}
+					}
+				}
+				// anything else is (or may be) the zero Result: no hosts-style rule of either family may be present
+				nZero++
+				at := ssa.Instruction(ret)
+				for _, fam := range []string{"HostRulesV4", "HostRulesV6"} {
+					g, n := core.CondEdges(f, emptyGuard(fam))
+					off, _ := core.UnguardedSinksLocal(f, func(x ssa.Instruction) bool { return x == at }, g)
+					r.Check(n > 0 && len(off) == 0, "C02-D5", fmt.Sprintf("not-filtered-only-without-host-rules:%s:%s#%d", core.FuncKey(f), fam, nZero), p.InstrPos(ret),
+						"a not-filtered result is returned only when the match has no "+fam,
+						"a match that carries hosts-style rules ("+fam+") can be turned into a not-filtered result: for the record type concerned (a CNAME target in a response, for one) names blocked by hosts-style lists are delivered", traceOf(p, off)...)
+				}
+			}
+		}
+	}
+	visit(fn, 0)
+	r.Floor("C02-D5", "matchHostProcessDNSResult-returns", nRet, 4)
+	r.Floor("C02-D5", "not-filtered-returns", nZero, 1)
 }
 
 func c02Gating(c *Ctx) {
